@@ -164,3 +164,86 @@ Example C01_dot_example :
   dot_ok d1 d2 dout = true /\ map psize (dot_lhs d1 d2 dout) = [1; 2; 12] /\ map psize (dot_rhs d1 d2 dout) = [1; 12; 5] /\
   map psize (dot_mid d1 d2 dout) = [1; 2; 5].
 Proof. vm_compute. repeat split; reflexivity. Qed.
+
+(* dot, end to end.  The one assumption is about the backend: a batched matmul that finds, for a result position [b; i; k],
+   operand entries [b; i; j] and [b; j; k] for every j below the contracted length J returns the sum of their products there
+   (numpy's matmul; outside the model).  Then, for operands X, Y given as functions of the loop environment, every nesting,
+   number of axes and size, and every loop environment: the result of the modelled lowering holds, at the position the
+   output expression denotes, the sum over all index combinations j of the contracted axes of X * Y - the loop-notation
+   meaning of dot.  [at_j rho j] is rho with the contracted axes at their j-th (row-major) index combination. *)
+From Coq Require Import ZArith.
+From Coq Require Import String.
+Close Scope string_scope.
+From EinxV Require Import Proofs.DotSum.
+Theorem C01_dot_is_the_sum_of_products :
+  forall (inp : nat -> entries Z) F BC CC (d1 d2 dout : list pex),
+  dot_ok d1 d2 dout = true ->
+  (forall (A B : entries Z) (b i k : N) (a c : N -> Z),
+     (forall j, j < J d1 d2 dout -> In ([b; i; j], a j) A /\ In ([b; j; k], c j) B) ->
+     In ([b; i; k], zsum (J d1 d2 dout) (fun j => (a j * c j)%Z)) (F "matmul"%string [A; B] ["kw:"%string])) ->
+  forall X Y : env -> Z,
+  (forall rho, in_bounds rho d1 -> In (map (pidx rho) d1, X rho) (inp 0%nat)) ->
+  (forall rho, in_bounds rho d2 -> In (map (pidx rho) d2, Y rho) (inp 1%nat)) ->
+  forall rho, in_bounds rho d1 -> in_bounds rho d2 -> in_bounds rho dout ->
+  In (map (pidx rho) dout, zsum (J d1 d2 dout) (fun j => (X (at_j d1 d2 dout rho j) * Y (at_j d1 d2 dout rho j))%Z))
+     (meval Z inp F BC CC (lower_dot d1 d2 dout)).
+Proof. intros inp F BC CC d1 d2 dout Hok Hmm X Y HX HY rho. exact (dot_is_the_sum_of_products inp F BC CC d1 d2 dout Hok Hmm X Y HX HY rho). Qed.
+Print Assumptions C01_dot_is_the_sum_of_products.
+
+Example C01_dot_sum_example :
+  (* "a (b c), c b d -> d a": 12 index combinations of the contracted axes (b, c); the 7th is b = 1, c = 3 *)
+  let d1 := [PAx 1 2 false; PFl [PAx 2 3 false; PAx 3 4 false]] in
+  let d2 := [PAx 3 4 false; PAx 2 3 false; PAx 4 5 false] in
+  let dout := [PAx 4 5 false; PAx 1 2 false] in
+  J d1 d2 dout = 12 /\ (lookup (at_j d1 d2 dout [] 7) 2, lookup (at_j d1 d2 dout [] 7) 3) = (1, 3) /\ zsum 4 (fun j => Z.of_N j) = 6%Z.
+Proof. vm_compute. repeat split; reflexivity. Qed.
+
+(* Element-wise operations, end to end.  The one assumption is numpy's broadcasting rule for the backend function: at an
+   index tuple for which it finds every operand's element - an operand whose dimension is 1 being read at 0 ([bmask]) - it
+   returns the elementary operation applied to them.  Then for any number of operands X_k given as functions of the loop
+   environment, every nesting and size: the modelled lowering holds, at the position the output expression denotes, the
+   operation applied to the operands' elements of that loop environment. *)
+From EinxV Require Import Proofs.ElementwiseFull.
+Theorem C01_elementwise_is_the_operation_on_the_operands :
+  forall (V : Type) (inp : nat -> entries V) F BC CC f (ins : list (list pex)) (dout : list pex),
+  elementwise_ok ins dout = true -> ins <> [] ->
+  forall (op : list V -> V) (Xs : list (env -> V)),
+  List.length Xs = List.length ins ->
+  (forall k din X, nth_error ins k = Some din -> nth_error Xs k = Some X ->
+     forall rho, in_bounds rho din -> In (map (pidx rho) din, X rho) (inp k)) ->
+  (forall (I : list N) (vs : list V),
+     Forall2 (fun (dA : list pex * entries V) v => In (bmask (bshape (fst dA) dout) I, v) (snd dA))
+             (combine ins (aligned_operands V inp F BC CC ins dout)) vs ->
+     In (I, op vs) (F f (aligned_operands V inp F BC CC ins dout) ["kw:"%string])) ->
+  forall rho, (forall din, In din ins -> in_bounds rho din) -> in_bounds rho dout ->
+  In (map (pidx rho) dout, op (map (fun X => X rho) Xs)) (meval V inp F BC CC (lower_elementwise f ins dout)).
+Proof.
+  intros V inp F BC CC f ins dout Hok Hne op Xs HXs HX Hbc rho.
+  exact (elementwise_is_the_operation_on_the_operands V inp F BC CC f ins dout Hok Hne op Xs HXs HX Hbc rho).
+Qed.
+Print Assumptions C01_elementwise_is_the_operation_on_the_operands.
+
+(* Reductions, end to end.  The one assumption is about the backend's reduction with axis=: if, for a tuple K of the remaining
+   coordinates, it finds an element for every index combination j < JR of the reduced positions (coordinates T j whose
+   axis= positions hold the j-th combination and whose other positions are K), it returns the reduction R of those elements
+   at K.  Then, for the operand X given as a function of the loop environment, every nesting and size: the modelled lowering
+   holds, at the position the output expression denotes, R of X over all index combinations of the bracketed axes
+   ([at_r rho j] is rho with the bracketed axes at their j-th combination). *)
+From EinxV Require Import Proofs.ReduceFull.
+Theorem C01_reduction_is_the_reduction_over_the_brackets :
+  forall (V : Type) (inp : nat -> entries V) F BC CC f (din dout : list pex),
+  reduce_ok din dout = true ->
+  forall (R : list V -> V),
+  (forall (A : entries V) (K : list N) (T : N -> list N) (a : N -> V),
+     (forall j, j < JR din -> In (T j, a j) A /\ drop_axes (reduce_axes din) (T j) = K /\
+                              take_axes (reduce_axes din) (T j) = unravel j (rlens din)) ->
+     In (K, R (tabulate (JR din) a)) (F f [A] [axis_lit (reduce_axes din); "kw:axis"%string])) ->
+  forall X : env -> V,
+  (forall rho, in_bounds rho din -> In (map (pidx rho) din, X rho) (inp 0%nat)) ->
+  forall rho, in_bounds rho din -> in_bounds rho dout ->
+  In (map (pidx rho) dout, R (tabulate (JR din) (fun j => X (at_r din rho j)))) (meval V inp F BC CC (lower_reduce f din dout)).
+Proof.
+  intros V inp F BC CC f din dout Hok R HR X HX rho.
+  exact (reduce_is_the_reduction_over_the_brackets V inp F BC CC f din dout Hok R HR X HX rho).
+Qed.
+Print Assumptions C01_reduction_is_the_reduction_over_the_brackets.
